@@ -82,7 +82,10 @@ def run(ctx):
                 n_author_kept += 1
                 norm_reqs += [{"op": "norm_text", "text": t}, {"op": "norm_text", "text": text_of(by_id[i][0])}]
                 norm_items.append((i, t, it))
-            elif out_leaf_texts.count(t) == in_leaf_texts.count(t) and out_leaf_texts.count(t) > 0 and "mphantom" not in it["xml"] and "semantics" not in it["xml"]:
+            elif out_leaf_texts.count(t) == in_leaf_texts.count(t) and out_leaf_texts.count(t) > 0 and "mphantom" not in it["xml"] and "semantics" not in it["xml"] and \
+                    not any(t in o and o != t for o in out_leaf_texts + in_leaf_texts):
+                # (a token that is part of a longer token on either side may have been merged into it -- number folding keeps the first id -- or the
+                #  surviving leaf may be a split-off piece of another token, "-2" -> "-" "2": such coincidences of text are not counted)
                 oracle_fail.append({"why": "author id lost although its token is still there", "xml": it["xml"], "out": it["reply"]["v"], "lines": it["lines"], "id": i, "token": t})
             else:
                 n_author_lost_merge += 1
